@@ -1683,3 +1683,62 @@ func ruleRevertAncestry(rule string) ruleFn {
 		c.Floor(rule, 4)
 	}
 }
+
+// ---------------------------------------------------------------------------
+// *-OPFWD: a data operation reports success only after it was handed to the layer below
+// ---------------------------------------------------------------------------
+
+var opForward = []struct{ fn, callee string }{
+	{fCtl + "WriteAt", fRepl + "WriteAt"}, {fCtl + "ReadAt", fRepl + "ReadAt"}, {fCtl + "Sync", fRepl + "Sync"}, {fCtl + "Unmap", fRepl + "Unmap"},
+	{fRepl + "WriteAt", "invoke:WriteAt"}, {fRepl + "ReadAt", "invoke:ReadAt"}, {fRepl + "Sync", "invoke:Sync"}, {fRepl + "Unmap", "invoke:Unmap"},
+	{fCli + "WriteAt", fCli + "operation"}, {fCli + "ReadAt", fCli + "operation"}, {fCli + "Sync", fCli + "operation"}, {fCli + "Unmap", fCli + "operation"}, {fCli + "Ping", fCli + "operation"},
+	{fSrv + "WriteAt", fRep + "WriteAt"}, {fSrv + "ReadAt", fRep + "ReadAt"}, {fSrv + "Sync", fRep + "Sync"}, {fSrv + "Unmap", fRep + "Unmap"},
+	{fRep + "WriteAt", "invoke:WriteAt"}, {fRep + "ReadAt", "invoke:ReadAt"}, {fRep + "Sync", "invoke:Sync"}, {fRep + "Unmap", "invoke:Unmap"},
+}
+
+// opForwardExceptions: "<function> | <position of the return>" is not usable (positions move); the
+// exceptions are therefore conditions: atoms under which a success return without the call is
+// the confirmed behaviour.
+var opForwardAtoms = map[string][]string{
+	// a quorum replica keeps no data: its Replica acknowledges without touching a volume
+	fRep + "WriteAt": {`+"quorum" -$0.ReplicaType ==0`},
+	fRep + "Sync":    {`+"quorum" -$0.ReplicaType ==0`},
+	fRep + "Unmap":   {`+"quorum" -$0.ReplicaType ==0`},
+	// the fail-over loop: with an empty reader list (excluded by backendsAvailable) nothing is read
+	fRepl + "ReadAt": {"+* -len($0.readers) >=0"},
+}
+
+func ruleOpForward(rule string) ruleFn {
+	return func(c *Ctx) {
+		c.Doc(rule, "every layer of the data path (Controller, replicator, rpc.Client, replica.Server, Replica: WriteAt / ReadAt / Sync / Unmap / Ping) reports success only on paths on which the operation was handed to the layer below: there is no fast path that acknowledges a flush, a write or a discard without executing it (a 'nothing changed since the last sync' flag is not maintained on the degraded-success paths, and it by-passes the read-only gate and the sticky connection error)")
+		n := 0
+		for _, of := range opForward {
+			fn := c.P.Fn(of.fn)
+			if fn == nil {
+				if strings.HasPrefix(of.fn, fCtl) || strings.HasPrefix(of.fn, fCli) {
+					c.Anchor(rule, of.fn)
+				}
+				continue
+			}
+			n++
+			sites := successReturns(fn)
+			need := Need{Desc: "handed to the layer below (" + strings.TrimPrefix(of.callee, "invoke:") + ")"}
+			if strings.HasPrefix(of.callee, "invoke:") {
+				m := strings.TrimPrefix(of.callee, "invoke:")
+				need.Instr = func(in ssa.Instruction) bool {
+					cl, ok := in.(*ssa.Call)
+					return ok && ((cl.Call.IsInvoke() && cl.Call.Method.Name() == m) || (calleeOf(&cl.Call) != nil && calleeOf(&cl.Call).Name() == m && calleeOf(&cl.Call) != fn))
+				}
+			} else {
+				need.Calls = []string{of.callee}
+			}
+			if as := opForwardAtoms[of.fn]; len(as) > 0 {
+				need.Atoms = as
+			}
+			c.Guard(rule, fn, sites, "report success", nil, need)
+		}
+		if n < 16 {
+			c.Undecided(rule, "vacuity-floor", "", fmt.Sprintf("only %d data-path functions found", n))
+		}
+	}
+}
